@@ -49,13 +49,17 @@ let rec perms = function
   | l -> List.concat_map (fun x -> List.map (fun p -> x :: p) (perms (List.filter (fun y -> y <> x) l))) l
 let dedup l = List.sort_uniq compare l
 
-(* canonical form of a state (dicts sorted by key, sets sorted): the order of a dict or set is never observable
-   except as a fallback of the preference order, which cannot make a trace equal to the implementation's *)
+(* canonical form of a state (dicts sorted by key, sets sorted): the order of a dict or set is not observable
+   except (a) as a fallback of the preference order, which cannot make a trace equal to the implementation's, and
+   (b) the order of trees_from_bottom in stale states, see [stale] *)
 let nkey h = let s = show_n h in (String.length s, s)
 let sort_by f l = List.sort (fun a b -> compare (f a) (f b)) l
 let canon_dict d = sort_by (fun (k, _) -> nkey k) d
+(* the order of trees_from_bottom is observable through lock_to_index's generator when some stored tree ends at
+   a hash that has meanwhile become known (only after a defective batch): such states keep their order *)
+let stale cf = List.exists (fun (_, l) -> match List.rev l with t :: _ -> List.mem_assoc t cf.pl | [] -> false) cf.tfb
 let canon_finder cf = { pl = canon_dict cf.pl; dbt = canon_dict (List.map (fun (k, s) -> (k, sort_by nkey s)) cf.dbt);
-                        tfb = canon_dict cf.tfb }
+                        tfb = if stale cf then cf.tfb else canon_dict cf.tfb }
 let canon_bc bc = { bc with bc_h2i = canon_dict bc.bc_h2i; bc_w = canon_dict bc.bc_w; bc_cf = canon_finder bc.bc_cf }
 
 (* all traces over the wildcards: prio "*" = every pop order (every permutation of the batch's hashes; for a lock
